@@ -150,10 +150,42 @@ def gen_drain(rng, k):
     return L
 
 
+def gen_rebind(rng, k):
+    """a datagram is still in flight (long-latency link) when its destination socket is closed and
+    re-opened - bound to another port or to the same one - or closed and replaced by another socket
+    object on that port; a second datagram follows after the change.  The first one was addressed to a
+    binding that no longer exists when it arrives: it must vanish; the second one must arrive."""
+    lat = rng.choice([30000000, 100000000])
+    net = Net(rng, nnodes=2, cap=0, bw=rng.choice([0, 50000000]), lat=lat)
+    L = list(net.lines)
+    a1 = net.ip(1)[1]
+    newport = rng.choice([5000, 5001, 5001])
+    style = rng.choice(["reopen", "reopen", "other-object"])
+    ops = ["udp_new 1 1", "udp_open 1 1", "udp_bind 1 0 0 5000", "udp_new 2 2", "udp_open 2 1", "udp_bind 2 0 0 6000",
+           "udp_arecv 1 1 %d : 2000" % (60 if style == "reopen" else 62),     # (62 is not re-armed: socket 1 stays closed)
+           "udp_send 2 0 %d 5000 : %d 111" % (a1, rng.randrange(1000)),
+           "expires_at 5 %d" % rng.choice([1000000, lat // 2]), "async_wait 5 70",
+           "expires_at 6 %d" % (lat * 3), "async_wait 6 71"]
+    H = {60: ["udp_arecv 1 1 60 : 2000"], 61: ["udp_arecv 3 1 61 : 2000"]}
+    if style == "reopen":
+        # (the aborted receive's completion re-arms the receive on the re-opened socket)
+        H[70] = ["udp_close 1", "udp_open 1 1", "udp_bind 1 0 0 %d" % newport]
+    else:
+        ops.insert(2, "udp_new 3 1")
+        H[70] = ["udp_close 1", "udp_open 3 1", "udp_bind 3 0 0 %d" % newport, "udp_arecv 3 1 61 : 2000"]
+    H[71] = ["udp_send 2 0 %d %d : %d 222" % (a1, newport, rng.randrange(1000))]
+    L += ["M " + o for o in ops]
+    for h in sorted(H):
+        L += ["H %d %s" % (h, o) for o in H[h]]
+    L.append("M run")
+    return L
+
+
 def generate(rng, tier):
     n = 150 if tier == "quick" else 4000
     nd = 12 if tier == "quick" else 200
-    return [("u%d" % k, gen(rng, k)) for k in range(n)] + [("dr%d" % k, gen_drain(rng, k)) for k in range(nd)]
+    return ([("u%d" % k, gen(rng, k)) for k in range(n)] + [("dr%d" % k, gen_drain(rng, k)) for k in range(nd)]
+            + [("rb%d" % k, gen_rebind(rng, k)) for k in range(nd)])
 
 
 def oracle(lines, trace):
@@ -188,6 +220,16 @@ def oracle(lines, trace):
                     break
         if got < sent:
             fails.append(("c08/drained-loss", "%d datagrams were accepted by send_to over unbounded links%s but a reader that always drains its queue received only %d of them" % (sent, " after the receiver was re-opened" if tcl else "", got)))
+    if any(l.startswith("H 71 udp_send 2 ") for l in lines) and any(l.startswith("H 70 udp_close 1") for l in lines):
+        # re-bind scenario: the 111-byte datagram was addressed to a binding that is gone when it arrives
+        t70 = [t for (t, tag, f) in ev if tag == 1 and f[0] == 70]
+        for (t, tag, f) in ev:
+            if tag == 1 and f[0] in (60, 61, 62) and len(f) >= 5 and f[1] == 0:
+                if f[2] == 111 and t70 and t >= t70[0]:
+                    fails.append(("c08/stale-delivery", "the datagram sent to port 5000 before the socket bound there was closed was delivered at t=%d, "
+                                  "after the close at t=%d, to a socket that did not hold that binding when it was sent" % (t, t70[0])))
+        if not any(tag == 1 and f[0] in (60, 61) and len(f) >= 5 and f[1] == 0 and f[2] == 222 for (t, tag, f) in ev):
+            fails.append(("c08/lost-after-rebind", "the datagram sent to the new binding was never delivered"))
     # what was sent: (payload digest, len) of every accepted send, in order, with return codes
     sends = []
     for l in lines:
